@@ -50,6 +50,19 @@ def spell_mb(rng, mb):
     return '%dM' % mb
 
 
+def glob_match(pat, s):
+    """Own shell-pattern matcher ('*' and '?' only)."""
+    if not pat:
+        return not s
+    if pat[0] == '*':
+        return any(glob_match(pat[1:], s[i:]) for i in range(len(s) + 1))
+    if not s:
+        return False
+    if pat[0] == '?' or pat[0] == s[0]:
+        return glob_match(pat[1:], s[1:])
+    return False
+
+
 def spell_secs(rng, secs):
     if secs % 60 == 0 and secs and rng.random() < 0.5:
         return '%dm' % (secs // 60)
@@ -330,13 +343,19 @@ class MasterDriver:
     def op_blacklist(self):
         rng = self.rng
         bl = list(self.Z['blacklist'])
-        mode = rng.choice(['fresh', 'add', 'add', 'add-overlap', 'remove', 'remove', 'clear'])
+        mode = rng.choice(['fresh', 'add', 'add', 'add-overlap', 'add-glob', 'remove', 'remove', 'clear'])
         if mode == 'fresh':
             bl = [an for an in self.appnames if rng.random() < 0.12]
             if rng.random() < 0.3:
                 bl.append(rng.choice(self.proids) + '.*')
         elif mode == 'add':
             bl.append(rng.choice(self.appnames + [p + '.*' for p in self.proids]))
+        elif mode == 'add-glob':
+            # blackout entries are shell patterns over the whole application name
+            an = rng.choice(self.appnames)
+            proid, _, rest = an.partition('.')
+            bl.append(rng.choice(['*.' + rest, proid[:1] + '*.' + rest, '?' + proid[1:] + '.*', '*' + rest[-1:],
+                                  proid + '.' + rest[:-1] + '?']))
         elif mode == 'add-overlap':
             # a wildcard and an exact entry matching the same application
             an = rng.choice(self.appnames)
@@ -723,7 +742,7 @@ class MasterDriver:
                                         dict(reserved=[0, 0, 0], rank=100, adj=0, maxutil=None, traits=0))
             if 'priority' in man and man['priority'] != -1:
                 prio = man['priority']
-            bl = any(base == b or (b.endswith('.*') and base.startswith(b[:-1])) for b in Z['blacklist'])
+            bl = any(glob_match(b, base) for b in Z['blacklist'])
             H.apps[name] = dict(
                 name=name, demand=list(za['demand']), priority=prio, affinity=man['affinity'],
                 limits=dict(man.get('affinity_limits', {})), lease=own_secs(man.get('lease', '0s')),
